@@ -533,11 +533,15 @@ def random_trace(seed, tid, workdir, props):
                        'axial': [bool(x) for x in (np.abs(ax - ax_exp) <= 1e-8)] if fin else [False] * nt,
                        'radial': [bool(x) for x in (np.abs(rad2 - rad2e) <= 4e-8 * np.maximum(d_exp, 1e-2) + 1e-12)]
                        if fin else [False] * nt})
-    if 'C03' in props and n >= 3:
+    if 'C03' in props:
         for _ in range(2):
             for _try in range(30):
                 pos3 = pos + rng.normal(0, rng.choice([0.02, 0.1, 0.3]), pos.shape)
-                if _classify(pos3, anchors, triple) == [] and all(_sin_at(pos3, *triple[a]) >= 1e-3 for a in anchors):
+                if n < 3:
+                    # one- and two-atom references: the anchor is the first atom; a new bead-bead distance is a deformation
+                    if n == 1 or np.linalg.norm(pos3[1] - pos3[0]) > 0.02:
+                        break
+                elif _classify(pos3, anchors, triple) == [] and all(_sin_at(pos3, *triple[a]) >= 1e-3 for a in anchors):
                     break
             else:
                 continue
@@ -555,7 +559,7 @@ def random_trace(seed, tid, workdir, props):
             ev.append({'op': 'CallDeformed', 'finite': fin,
                        'dist': [bool(x) for x in (np.abs(dist - d_exp) <= 1e-9)] if fin else [False] * nt,
                        'mutual': mutual if fin else [False] * nt})
-            for d in rng.permutation(n)[:6]:
+            for d in (rng.permutation(n)[:6] if n >= 3 else []):
                 pos4 = pos3.copy()
                 pos4[d] += rng.normal(0, 0.2, 3)
                 mol4 = refmol.copy()
